@@ -568,7 +568,7 @@ def check_property(ctx, pid, tier, seed, replay=None):
         procs = []
         for opsf, robs in todo:
             pf = open(robs + '.probe.tmp', 'w')
-            procs.append((subprocess.Popen([ctx.harness_bin, 'probe', opsf], stdout=pf, stderr=subprocess.PIPE, text=True), pf, robs))
+            procs.append((subprocess.Popen([ctx.harness_bin, 'probe', opsf, '1' if tier == 'quick' else '12'], stdout=pf, stderr=subprocess.PIPE, text=True), pf, robs))
         for pr, pf, robs in procs:
             _, err = pr.communicate(timeout=7200)
             pf.close()
